@@ -286,4 +286,27 @@ example : (connect (some (.userPass [0x75] [0x70])) (.connect (.domain [0x61]) 8
     [5, 2, 1, 0, 5, 0, 0, 1, 0, 0, 0, 0, 0, 0]).2 = .tcp := by decide
 example : (connect none (.connect (.domain [0x61]) 80) [5, 2]).2 = .error .auth := by decide
 
+/-! ## The reply ends where the destination's data begins
+
+What the tunnel over an established connection hands to its client first is whatever follows the proxy's reply
+(`afterDialogue`): the reply reader takes exactly the reply - four bytes, the bound address in the length its type says,
+the port - and nothing of what is behind it. -/
+
+theorem readExact_append (n : Nat) (a rest : Bytes) (h : a.length = n) :
+    readExact n (a ++ rest) = .ok a rest := by
+  unfold readExact
+  simp [← h]
+
+/-- a success reply with an IPv6 bound address is 4 + 16 + 2 bytes: everything behind it is left for the tunnel -/
+theorem reply_v6_consumes_exactly (code : Nat) (a p data : Bytes) (hc : code ≤ 8) (ha : a.length = 16) (hp : p.length = 2) :
+    ∃ r, readReply (5 :: code :: 0 :: 4 :: (a ++ (p ++ data))) = .ok r data := by
+  have hcode : ¬ code > 8 := by omega
+  simp only [readReply, readU8, bne_self_eq_false, Bool.false_eq_true, if_false, hcode]
+  simp [readExact_append 16 a (p ++ data) ha, readExact_append 2 p data hp]
+
+theorem reply_v4_consumes_exactly (code : Nat) (a p data : Bytes) (hc : code ≤ 8) (ha : a.length = 4) (hp : p.length = 2) :
+    ∃ r, readReply (5 :: code :: 0 :: 1 :: (a ++ (p ++ data))) = .ok r data := by
+  have hcode : ¬ code > 8 := by omega
+  simp only [readReply, readU8, bne_self_eq_false, Bool.false_eq_true, if_false, hcode]
+  simp [readExact_append 4 a (p ++ data) ha, readExact_append 2 p data hp]
 end TT.Socks
